@@ -48,6 +48,7 @@ def gen(ctx, k):
 
 def real_obs(ctx, m):
     fd = U.fresh(m)
+    U.stage('calculate_normal_incidence_matrix()')
     ffd, inc, normals = G.quiet(fd.calculate_normal_incidence_matrix)
     coo = inc.tocoo()
     obs = {'facets': U.rows(ffd.elements.data), 'facet_ids': [int(i) for i in ffd.elements.ids],
@@ -55,6 +56,7 @@ def real_obs(ctx, m):
            'shape': tuple(int(x) for x in inc.shape), 'normals': normals.tolist(),
            'cells': U.flat_ids(fd)}
     f2 = U.fresh(m)
+    U.stage('to_facets() / areas / centres / volumes')
     ffd2 = G.quiet(f2.to_facets)
     obs['areas'] = [float(x) for x in G.quiet(ffd2.calculate_element_areas)[:, 0]]
     obs['centres'] = G.quiet(lambda: ffd2.convert_nodal2elemental(ffd2.nodes.data, calc_average=True)).tolist()
@@ -189,9 +191,11 @@ def correspond(ctx, m, obs, case, planar):
 def one_case(ctx, m):
     case = U.mesh_case(m, jittered=bool(m.get('jittered')))
     planar = m['kind'] == 'tet' or not m.get('jittered')
-    obs = real_obs(ctx, m)
-    n_int = sum(len(G.FACES[t]) for t, _, _ in U.elem_list(m)) - len(obs['facets'])
     key = (tuple(m['nodes']), tuple((t, tuple((e, tuple(c)) for e, c in b)) for t, b in m['blocks'].items()))
+    obs = U.guarded(ctx, case, key, real_obs, ctx, m)
+    if obs is None:
+        return
+    n_int = sum(len(G.FACES[t]) for t, _, _ in U.elem_list(m)) - len(obs['facets'])
     ctx.case(key, sample={**G.describe(m), 'facets': len(obs['facets']), 'interior_facets': n_int, 'planar_faces': planar},
              nontrivial=n_int > 0)
     for lab in ('kind', 'order', 'id_style', 'jittered'):
@@ -201,14 +205,13 @@ def one_case(ctx, m):
     if ctx.driver is not None:
         flags = correspond(ctx, m, obs, case, planar)
         if flags is not None and not all(flags.values()):
-            ctx.count('stream:outside-hypotheses')
-            ctx.notes.append('generated mesh outside the theorem hypotheses: ' + repr(flags))
-            return
+            # generator meshes are conforming and non-overlapping: a false hypothesis is a changed table / model
+            ctx.disagree('a theorem hypothesis evaluates to false on a generator-conforming mesh', case, None, flags)
     oracle(ctx, m, obs, case, planar)
 
 
 def run(ctx):
-    n = ctx.n(200, 1200) if ctx.driver is not None else ctx.n(300, 1500)
+    n = ctx.n(200, 3000) if ctx.driver is not None else ctx.n(300, 1500)
     for name, obj in C.corpus_cases(PROP):
         try:
             mm = G.from_json(obj['input']['mesh'])
@@ -228,8 +231,11 @@ def replay(ctx, obj):
     m['jittered'] = obj['input'].get('jittered', False)
     planar = m['kind'] == 'tet' or set(m['blocks']) == {'tet'} or not m['jittered']
     case = U.mesh_case(m, jittered=m['jittered'])
-    obs = real_obs(ctx, m)
     n0 = len(ctx.failures)
+    obs = U.guarded(ctx, case, 'replay', real_obs, ctx, m)
+    if obs is None:
+        return {'describe': G.describe(m), 'failures': [{'signature': f['signature'], 'what': f['what'], 'observed': f['observed']}
+                                                        for f in ctx.failures[n0:]], 'fails': True}
     oracle(ctx, m, obs, case, planar)
     res = {'describe': G.describe(m), 'facets': obs['facets'][:8], 'triples': obs['triples'][:12],
            'failures': [{'signature': f['signature'], 'what': f['what'], 'observed': f['observed']} for f in ctx.failures[n0:]],
